@@ -327,8 +327,20 @@ func TestRoundTripAndHostileLoader(t *testing.T) {
 			superseded++
 		}
 		sub.Count("log_entries_superseded_by_a_peer_before_the_snapshot", int64(superseded))
+		// a Log call that is refused (receiver data that cannot be encoded) must not leave anything behind that
+		// the next snapshot stumbles over
+		if size > 0 && r.Intn(2) == 0 {
+			bad := nflog.NewStore(nil)
+			bad.SetStr("s", "thread \xff\xfe")
+			if err := l.Log(rc0, gks[r.Intn(len(gks))], []uint64{7777}, nil, bad, 0); err != nil {
+				sub.Count("refused_log_calls_before_the_snapshot", 1)
+			}
+		}
 		var lsnap bytes.Buffer
-		l.Snapshot(&lsnap)
+		if _, err := l.Snapshot(&lsnap); err != nil {
+			sub.Violation("snapshot-failed", map[string]any{"component": "nflog", "err": err.Error()})
+			return
+		}
 		l2, _, err := newNflog("", lsnap.Bytes())
 		if err != nil {
 			sub.Violation("snapshot-written-by-the-store-rejected-on-load", map[string]any{"component": "nflog", "err": err.Error()})
